@@ -526,6 +526,35 @@ func rulePageOrder(c *eng.Ctx) {
 				if _, ok := eng.Induction(ia.Index); ok && eng.TypeName(ia.X.Type()) == "core.Array" {
 					fwd = true
 				}
+				// a cursor kept in a frame of an explicit stack: kids[frame.next] with frame.next++ as its only update
+				if fr, ok := eng.LoadOfField(ia.Index); ok && eng.TypeName(ia.X.Type()) == "core.Array" {
+					up, other := false, false
+					eng.Instrs(h, false, func(i2 ssa.Instruction) {
+						st, ok := i2.(*ssa.Store)
+						if !ok {
+							return
+						}
+						f2, ok := eng.AsField(st.Addr)
+						if !ok || f2.Field != fr.Field || f2.Struct != fr.Struct {
+							return
+						}
+						if b, ok := st.Val.(*ssa.BinOp); ok && b.Op == token.ADD {
+							if k, isC := eng.ConstInt(b.Y); isC && k == 1 {
+								if f3, ok := eng.LoadOfField(b.X); ok && f3.Field == fr.Field {
+									up = true
+									return
+								}
+							}
+						}
+						if k, isC := eng.ConstInt(st.Val); isC && k == 0 {
+							return // a new frame starts at the first kid
+						}
+						other = true
+					})
+					if up && !other {
+						fwd = true
+					}
+				}
 			}
 		})
 	}
@@ -557,6 +586,19 @@ func callsAnchor(p *eng.Prog, fn *ssa.Function, name string) bool {
 			for _, g := range cands {
 				if g == target {
 					return true
+				}
+			}
+		}
+		// called through a small interface: one of the implementations the call can reach hands on to the target
+		if ci.Common().IsInvoke() {
+			for _, g := range p.Callees(ci) {
+				if g.Blocks == nil || !eng.InModule(g) {
+					continue
+				}
+				for _, c2 := range eng.Calls(g, false, func(string, ssa.CallInstruction) bool { return true }) {
+					if eng.StaticCallee(c2) == target {
+						return true
+					}
 				}
 			}
 		}
